@@ -1,5 +1,7 @@
-(* C08 correspondence: the abstract forecaster family is instantiated with the Coq twins of C07
-   (test double, NaiveForecaster last/mean) and an affine-pipeline wrapper; cases carry the real
+(* C08 correspondence: the abstract forecaster objects are instantiated with the Coq twins of C07
+   (test double, NaiveForecaster last/mean), an affine-pipeline wrapper and a multiplexer; candidates
+   are the PARTIAL parameter dicts of cv_results_["params"] (lists of single assignments `pset`)
+   applied by `apply8` to the case's base forecaster; cases carry the real
    tuner's cv_results_ (means, ranks), best_index_/best_score_/best_params_ and the answers of
    predict / update / cutoff after fit.  The evaluation half is compared with tolerance (floats vs
    exact rationals); the selection half is recomputed EXACTLY on the implementation's own means with
@@ -12,7 +14,51 @@ Open Scope Z_scope.
 
 Inductive fc8 :=
   | F8 (f : fcspec)
-  | F8Pipe (a b : Z) (f : fcspec).   (* TransformedTargetForecaster([y -> a*y+b, f]) *)
+  | F8Pipe (a b : Z) (f : fcspec)    (* TransformedTargetForecaster([y -> a*y+b, f]) *)
+  | F8Mux (ms : list fcspec) (sel : Z).   (* MultiplexForecaster(ms, selected_forecaster = ms[sel]) *)
+
+(* one entry of a candidate dict *)
+Inductive pset :=
+  | PCoef (i v : Z)                  (* a / b / c / d / e (i = 0..4) of the test double *)
+  | PTag (v : Z)                     (* the double's inert `tag` *)
+  | PStrategy (mean : bool)          (* NaiveForecaster strategy *)
+  | PWl (w : option Z)               (* NaiveForecaster window_length *)
+  | PTa (v : Z) | PTb (v : Z)        (* t__a / t__b of the pipeline's transformer *)
+  | PInner (p : pset)                (* f__<p> of the pipeline *)
+  | PMember (i : Z) (p : pset)       (* m<i>__<p> of the multiplexer *)
+  | PSelect (i : Z).                 (* selected_forecaster = name of member i *)
+
+(* set_params on a leaf forecaster; an assignment the object has no parameter for never occurs *)
+Definition set_fc (f : fcspec) (p : pset) : fcspec :=
+  match f, p with
+  | FDouble a b c d e, PCoef i v =>
+      if i =? 0 then FDouble v b c d e else if i =? 1 then FDouble a v c d e
+      else if i =? 2 then FDouble a b v d e else if i =? 3 then FDouble a b c v e
+      else FDouble a b c d v
+  | FNaive _ w, PStrategy m => FNaive m w
+  | FNaive m _, PWl w => FNaive m w
+  | _, _ => f
+  end.
+Fixpoint set_nth (i : nat) (g : fcspec -> fcspec) (l : list fcspec) : list fcspec :=
+  match l, i with
+  | [], _ => []
+  | x :: t, O => g x :: t
+  | x :: t, S j => x :: set_nth j g t
+  end.
+Definition set8 (f : fc8) (p : pset) : fc8 :=
+  match f, p with
+  | F8 g, _ => F8 (set_fc g p)
+  | F8Pipe _ b g, PTa v => F8Pipe v b g
+  | F8Pipe a _ g, PTb v => F8Pipe a v g
+  | F8Pipe a b g, PInner q => F8Pipe a b (set_fc g q)
+  | F8Mux ms _, PSelect i => F8Mux ms i
+  | F8Mux ms s, PMember i q => F8Mux (set_nth (Z.to_nat i) (fun g => set_fc g q) ms) s
+  | _, _ => f
+  end.
+(* clone(base).set_params( **dict ): the entries of one dict name distinct parameters *)
+Definition apply8 (f : fc8) (pa : list pset) : fc8 := fold_left set8 pa f.
+Definition member (ms : list fcspec) (sel : Z) : fcspec :=
+  nth (Z.to_nat sel) ms (FNaive false None).
 
 Definition tr_ydata (a b : Z) (d : ydata) : ydata :=
   map (fun o => (fst o, (inject_Z a * snd o + inject_Z b)%Q)) d.
@@ -28,11 +74,13 @@ Definition respond8 (f : fc8) (h : list (call Q)) : ydata :=
   match f with
   | F8 g => respond_of g h
   | F8Pipe a b g => inv_ydata a b (respond_of g (map (tr_call a b) h))
+  | F8Mux ms sel => respond_of (member ms sel) h
   end.
 Definition cutoff8 (f : fc8) (h : list (call Q)) : Z :=
   match f with
   | F8 g => cutoff_of g h
   | F8Pipe a b g => cutoff_of g (map (tr_call a b) h)
+  | F8Mux ms sel => cutoff_of (member ms sel) h
   end.
 
 Record impl := mkimpl {
@@ -42,7 +90,8 @@ Record impl := mkimpl {
 
 Inductive case :=
   | CTune (sp : splitter) (off : Z) (ys : list Q) (xs : option (list Q)) (st : strategy)
-          (m : mspec) (gib : bool) (cands : list fc8) (refit : bool) (fitfh : list Z)
+          (m : mspec) (gib : bool) (base : fc8) (cands : list (list pset)) (refit : bool)
+          (fitfh : list Z)
           (script : list (op Q)) (o : option impl).
 
 Definition qlist_close (a b : list Q) : bool :=
@@ -65,19 +114,19 @@ Definition xfun (xs : option (list Q)) : option (Z -> Q) :=
   match xs with Some l => Some (series l) | None => None end.
 
 Definition model_tune (sp : splitter) (off : Z) (ys : list Q) (xs : option (list Q))
-           (st : strategy) (m : mspec) (gib : bool) (cands : list fc8) (refit : bool)
-           (fitfh : list Z) (script : list (op Q)) :=
+           (st : strategy) (m : mspec) (gib : bool) (base : fc8) (cands : list (list pset))
+           (refit : bool) (fitfh : list Z) (script : list (op Q)) :=
   match tuner_fit Q (fun p => p + off) (series ys) (xfun xs) (metric_of m) gib gen_ascending fc8
-                  respond8 cutoff8 sp st cands refit fitfh with
-  | Ok t => Ok (tn_search _ _ t, tuner_run Q fc8 respond8 cutoff8 t script)
+                  (list pset) apply8 respond8 cutoff8 base sp st cands refit fitfh with
+  | Ok t => Ok (tn_search _ _ t, tuner_run Q fc8 (list pset) apply8 respond8 cutoff8 base t script)
   | Err => Err
   end.
 
 Definition check (c : case) : bool :=
   match c with
-  | CTune sp off ys xs st m gib cands refit fitfh script o =>
+  | CTune sp off ys xs st m gib base cands refit fitfh script o =>
       match tuner_fit Q (fun p => p + off) (series ys) (xfun xs) (metric_of m) gib gen_ascending
-                      fc8 respond8 cutoff8 sp st cands refit fitfh, o with
+                      fc8 (list pset) apply8 respond8 cutoff8 base sp st cands refit fitfh, o with
       | Err, None => true
       | Ok t, Some im =>
           let s := tn_search _ _ t in
@@ -92,11 +141,12 @@ Definition check (c : case) : bool :=
            match cands with
            | [] => false
            | c0 :: _ =>
-               let t' := mktuner Q fc8
+               let t' := mktuner Q (list pset)
                            (mksearch (s_means s) (s_ranks s) bi (s_best_score s)
                                      (nth (Z.to_nat bi) cands c0))
                            (tn_refit _ _ t) (tn_calls _ _ t) in
-               answers_agree (tuner_run Q fc8 respond8 cutoff8 t' script) (im_answers im)
+               answers_agree (tuner_run Q fc8 (list pset) apply8 respond8 cutoff8 base t' script)
+                             (im_answers im)
            end)
       | _, _ => false
       end
